@@ -82,6 +82,16 @@ func init() {
 			Bounds: "MTU 1280..1500, fragment 0..65535, existing padding 0..255, all int32 maxima", Outside: "-"},
 	)
 	reg("C09",
+		HarnessDef{ID: "H9.1", Spec: HarnessSpec{Name: "vH_C09_hash_password", Pkg: "pkg/cipher", LoopBound: 40, TimeoutS: 120},
+			What: "HashPassword(pw, user) == SHA-256(pw | 0x00 | user) for password lengths 0..3 and user lengths 1..3 (SHA-256 uninterpreted: any other byte string fed to it is a counterexample)", Bounds: "lengths case-split as stated, contents symbolic", Outside: "longer inputs (no length-dependent branch in the code)"},
+		HarnessDef{ID: "H9.2", Spec: HarnessSpec{Name: "vH_C08_key_is_function_of_slot", Pkg: "pkg/cipher", LoopBound: 40, TimeoutS: 120},
+			What: "key i = PBKDF2-SHA256(hashedPassword, SHA-256(BE64(slot_i)), 64 iterations, 32 bytes) for the three documented slots (any other iteration count, length, order or endianness is a counterexample)", Bounds: "all instants, 32-byte password", Outside: "the primitives themselves"},
+		HarnessDef{ID: "H9.3", Spec: HarnessSpec{Name: "vH_C09_user_hint", Pkg: "pkg/cipher", LoopBound: 40, TimeoutS: 120},
+			What: "addUserHintToNonce: nonce[20:24] = first 4 bytes of SHA-256(username | nonce[0:16]), nonce[0:20] untouched; CheckUserFromHint accepts it", Bounds: "user names of 1..3 bytes, all nonces", Outside: "longer names"},
+		HarnessDef{ID: "H9.5", Spec: HarnessSpec{Name: "vH_C09_increase_nonce", Pkg: "pkg/cipher", LoopBound: 40, TimeoutS: 120},
+			What: "increaseNonce = +1 on the 192-bit big-endian integer (wrapping) for all 2^192 nonces", Bounds: "-", Outside: "-"},
+		HarnessDef{ID: "H9.8", Spec: HarnessSpec{Name: "vH_C18_tunnel_frame", Pkg: "apis/common", LoopBound: 12, TimeoutS: 120},
+			What: "UDP associate encapsulation = 00 | BE16(len) | data | ff", Bounds: "every length 0..70000", Outside: "-"},
 		HarnessDef{ID: "H9.4a", Spec: HarnessSpec{Name: "vH_C09_session_layout", Pkg: "pkg/protocol", LoopBound: 20, TimeoutS: 120},
 			What: "sessionStruct.Marshal emits the documented 32-byte layout for all field values; Unmarshal accepts every documented-valid layout and returns the fields", Bounds: "all field values; clock 2020..2100", Outside: "-"},
 		HarnessDef{ID: "H9.4b", Spec: HarnessSpec{Name: "vH_C09_dataack_layout", Pkg: "pkg/protocol", LoopBound: 20, TimeoutS: 120},
@@ -216,5 +226,46 @@ func init() {
 			ReplayPatches: []SrcPatch{outputPatch},
 			What:   "one pass of the real UDP output loop (runOutputOncePacket) from an arbitrary state - a segment in the send buffer with arbitrary timers/counters, a new segment in the send queue, possibly a segment buffered ahead of a receive gap, arbitrary windows and clock: every emitted data/ack datagram carries unAckSeq == nextRecv; a (re)transmitted segment keeps type, seq, fragment, length and payload; queued data of a still-opening client session is deferred (C02 H2.1)",
 			Bounds: "<= 1 segment per queue, payload <= 1 byte, RTO/cwnd arbitrary in range (congestion control stubbed by range contract)", Outside: sessNote},
+	)
+	ulR := map[string]string{}
+	for k, v := range sess {
+		ulR[k] = v
+	}
+	delete(ulR, "(*github.com/enfein/mieru/v3/pkg/protocol.Session).output")
+	ulR["github.com/enfein/mieru/v3/pkg/protocol.newPadding"] = "vStubNewPadding"
+	ulR["(*github.com/enfein/mieru/v3/pkg/protocol.StreamUnderlay).serverInitRecvBlockCipherAndDecryptMetadata"] = "vStubServerInitRecv"
+	ulFail := map[string]string{}
+	for k, v := range ulR {
+		ulFail[k] = v
+	}
+	ulFail["(*github.com/enfein/mieru/v3/pkg/protocol.StreamUnderlay).serverInitRecvBlockCipherAndDecryptMetadata"] = "vStubServerInitRecvFail"
+	ulLB := map[string]int{"ReadAtLeast": 2, "vTCPFrame": 4, "RunEventLoop": 2, "vH_C04_tcp_tamper": 80}
+	ulNote := "ideal AEAD at the cipher.BlockCipher level (Seal records, Open succeeds iff an identical record exists); newPadding replaced by a contract stub (any bytes, planned length <= the requested maximum); server user discovery replaced by its outcome (succeeds for the sender's credential / fails); full-size reads on the fake connection"
+	reg("C01",
+		HarnessDef{ID: "H1.1a", Spec: HarnessSpec{Name: "vH_C01_tcp_frame_data", Pkg: "pkg/protocol", LoopBound: 64, LoopBounds: ulLB, TimeoutS: 300, Par: 6, Redirects: ulR},
+			What:   "TCP framing: a client underlay's real writeOneSegment emits two data segments; the bytes are laid out as documented (nonce only on the first, metadata+tag, padding1, payload+tag, padding2, lengths as recorded in the metadata) and a server underlay's real readOneSegment returns the same two segments, consuming exactly the bytes written with nonce counters in step (also C09 H9.6, C14 H14.2-stream, C16 H16.2)",
+			Bounds: "payloads 0..2 bytes, padding lengths 0..2 (case split), two segments", Outside: ulNote},
+		HarnessDef{ID: "H1.1b", Spec: HarnessSpec{Name: "vH_C01_tcp_frame_session", Pkg: "pkg/protocol", LoopBound: 64, LoopBounds: ulLB, TimeoutS: 300, Par: 6, Redirects: ulR},
+			What: "same for session (open request) segments with piggybacked payload", Bounds: "as H1.1a", Outside: ulNote},
+	)
+	reg("C09",
+		HarnessDef{ID: "H9.6", Spec: HarnessSpec{Name: "vH_C01_tcp_frame_data", Pkg: "pkg/protocol", LoopBound: 64, LoopBounds: ulLB, TimeoutS: 300, Par: 6, Redirects: ulR},
+			What: "TCP segment layout and nonce progression as documented (see C01 H1.1a)", Bounds: "as C01 H1.1a", Outside: ulNote},
+	)
+	reg("C04",
+		HarnessDef{ID: "H4.1", Spec: HarnessSpec{Name: "vH_C04_tcp_tamper", Pkg: "pkg/protocol", LoopBound: 64, LoopBounds: ulLB, TimeoutS: 300, Par: 6, Redirects: ulR},
+			What:   "after one genuine data segment was written, the server's real readOneSegment parses an ARBITRARY 92-byte stream: if it returns a segment at all, type, ids, sequence, ack fields and payload are the genuine ones and the authenticated bytes equal the genuine bytes; every rejection is a typed error",
+			Bounds: "one segment, payload 2 bytes, padding 1+1", Outside: ulNote + "; UDP datagrams (H4.2) not built"},
+	)
+	reg("C05",
+		HarnessDef{ID: "H5.1", Spec: HarnessSpec{Name: "vH_C05_tcp_silence", Pkg: "pkg/protocol", LoopBound: 64, LoopBounds: ulLB, TimeoutS: 300, Par: 4, Redirects: ulFail},
+			What:   "real StreamUnderlay.RunEventLoop (server) on an arbitrary byte string of any length 0..80 from a peer without a registered credential (discovery fails): the loop returns with an error, nothing is written, no session exists, nothing is handed to the application, the connection is closed",
+			Bounds: "streams <= 80 bytes", Outside: ulNote + "; UDP (H5.2) not built; timing side channels"},
+	)
+	reg("C02",
+		HarnessDef{ID: "H2.a", Spec: HarnessSpec{Name: "vH_C13_inputData_packet", Pkg: "pkg/protocol", LoopBound: 8, LoopBounds: sessLB, TimeoutS: 240, Par: 6, Redirects: sess},
+			What: "safety part only: in-order exactly-once delivery step of the UDP receive path (= C13 H13.1)", Bounds: "as C13 H13.1", Outside: "liveness / completion under fair loss (unbounded; not decidable here); " + sessNote},
+		HarnessDef{ID: "H2.1", Spec: HarnessSpec{Name: "vH_C13_output_packet", Pkg: "pkg/protocol", LoopBound: 8, LoopBounds: sessLB, TimeoutS: 240, Par: 6, Redirects: outR}, ReplayPatches: []SrcPatch{outputPatch},
+			What: "one output pass: acks cumulative, retransmissions unchanged, data deferred while the client session is opening (= C13 H13.2 incl. the H2.1 deferral assertion)", Bounds: "as C13 H13.2", Outside: "liveness; " + sessNote},
 	)
 }
